@@ -167,3 +167,22 @@ package diff
 //@   ensures [C04] names: res != nil && (forall s string :: {s in res} (s in res && res[s]) == (exists i int :: {peers[i]} 0 <= i && i < len(peers) && !clIsIP(peers[i]) && clStr(peers[i]) == s))
 //@   loop 1:
 //@     invariant names: peersSet != nil && (forall s string :: {s in peersSet} (s in peersSet && peersSet[s]) == (exists i int :: {peers[i]} 0 <= i && i <= rangeindex && !clIsIP(peers[i]) && clStr(peers[i]) == s))
+
+// ---------------------------------------------------------------------------------------------
+// diff dot output (C09): every entry of a category yields exactly one edge line, and the set of peers that already have a
+// node line is keyed by the FULL printed identity (namespace/name[kind]) of the peer - so two workloads that share name and
+// kind in different namespaces never share a node
+// ---------------------------------------------------------------------------------------------
+//@ fun dfSrc(c SrcDstDiff) Peer = if unwrap(c, *connsPair).diffType == "added" then p2pSrc(unwrap(c, *connsPair).secondConn) else p2pSrc(unwrap(c, *connsPair).firstConn)
+//@ fun dfDst(c SrcDstDiff) Peer = if unwrap(c, *connsPair).diffType == "added" then p2pDst(unwrap(c, *connsPair).secondConn) else p2pDst(unwrap(c, *connsPair).firstConn)
+//@ func (*diffFormatDOT).getEdgesAndPeersLinesByCategory
+//@   nosafety
+//@   requires peersSet != nil && forall k int :: {connsPairs[k]} (0 <= k && k < len(connsPairs)) ==> (dyntype(connsPairs[k], *connsPair) && unwrap(connsPairs[k], *connsPair) != nil)
+//@   modifies *
+//@   ensures [C09] edges: len(connsEdges) + len(ingressEdges) == len(connsPairs)
+//@   ensures [C09] nodes: forall k int :: {connsPairs[k]} (0 <= k && k < len(connsPairs)) ==> (clStr(dfSrc(connsPairs[k])) in peersSet && peersSet[clStr(dfSrc(connsPairs[k]))]
+//@         && clStr(dfDst(connsPairs[k])) in peersSet && peersSet[clStr(dfDst(connsPairs[k]))])
+//@   loop 1:
+//@     invariant edges: len(connsEdges) + len(ingressEdges) == rangeindex + 1
+//@     invariant nodes: forall k int :: {connsPairs[k]} (0 <= k && k <= rangeindex) ==> (clStr(dfSrc(connsPairs[k])) in peersSet && peersSet[clStr(dfSrc(connsPairs[k]))]
+//@         && clStr(dfDst(connsPairs[k])) in peersSet && peersSet[clStr(dfDst(connsPairs[k]))])
